@@ -6,7 +6,7 @@ from typing import Union, Optional, Tuple, Sequence
 from xitorch._utils.bcast import get_bcasted_dims
 from xitorch._utils.tensor import tallqr, to_fortran_order
 from xitorch.debug.modes import is_debug_enabled
-from xitorch._utils.exceptions import MathWarning
+from xitorch._utils.exceptions import MathWarning, ConvergenceWarning
 
 def exacteig(A: LinearOperator, neig: int,
              mode: str, M: Optional[LinearOperator]) -> Tuple[torch.Tensor, torch.Tensor]:
@@ -221,6 +221,11 @@ def davidson(A: LinearOperator, neig: int,
         AVnew = A.mm(V[..., -nadd:])  # (*BAM,na,nadd)
         AVnew = to_fortran_order(AVnew)
         AV = torch.cat((AV, AVnew), dim=-1)
+
+    if not best_resid < min_eps:
+        msg = ("Convergence is not achieved after %d iterations. "
+               "Max residual of the best eigenpairs: %.3e (min_eps: %.3e)") % (i + 1, best_resid, min_eps)
+        warnings.warn(ConvergenceWarning(msg))
 
     eigvals = best_eigvals  # (*BAM, neig)
     eigvecs = best_eigvecs  # (*BAM, na, neig)
